@@ -140,6 +140,7 @@ def check(ctx, report):
     name_value_composers(ctx, report, rule='C01.R7')
     from .c08 import txt_chunks
     txt_chunks(ctx, report, rule='C01.R8')
+    equality(ctx, report)
     if 'SslRecord' in reviewed and reviewed['SslRecord'].get('strip_header'):
         # the header left out of the element-wise comparison above
         from .c06 import ssl2_header
@@ -252,3 +253,89 @@ def exhaustiveness(ctx, report):
                     if mname and type(own) is type(tag) and own != tag:
                         report.add('C01.R5', '%s@registry[%s]' % (c.construct, item.cls.name),
                                    'registered under %s but the class reports %s' % (show(tag), show(own)))
+
+
+# ---- R9: equality is defined over the state that reaches the wire ----------------------------------------------------
+
+def equality(ctx, report, RULE='C01.R9'):
+    """parse(compose(x)) == x needs an __eq__ that looks at x's fields.  For every concrete parsable class: the class that
+    provides __eq__ (first in the MRO with an explicit __eq__ or an attrs decoration that generates one), the names it
+    compares, and the instance attributes the class chain stores outside that set (plain ``self.x = ...`` in a hand written
+    __init__, attr.ib of an undecorated subclass) that the composer reads."""
+    import ast
+    from ..model import ClassInfo
+    model = ctx.model
+    report.rule(RULE, 'every parsable class compares by value, over all the state its composer writes')
+
+    def kw_false(k, names):
+        for n in names:
+            v = k.attrs_kw.get(n)
+            if isinstance(v, ast.Constant) and v.value is False:
+                return True
+        return False
+
+    def self_attrs(node, store=None):
+        out = set()
+        for n in ast.walk(node):
+            if isinstance(n, ast.Attribute) and isinstance(n.value, ast.Name) and n.value.id == 'self':
+                if store is None or isinstance(n.ctx, ast.Store) == store:
+                    out.add(n.attr)
+        return out
+    for c in model.concrete_parsables():
+        if c.enum_members is not None or c.is_subclass_of('builtins.Exception'):
+            continue
+        chain = [k for k in c.mro if isinstance(k, ClassInfo) and not k.external]
+        report.count(RULE)
+        provider, compared = None, None
+        for k in chain:
+            if '__eq__' in k.methods:
+                provider = k
+                body = k.methods['__eq__'].node
+                txt = ast.unparse(body)
+                compared = None if ('__dict__' in txt or '.compose()' in txt or 'attr.astuple' in txt or 'attr.asdict' in txt) else self_attrs(body)
+                break
+            if k.attrs_decorated and not kw_false(k, ('eq', 'cmp')):
+                provider = k
+                compared = set()
+                for j in [x for x in k.mro if isinstance(x, ClassInfo)]:
+                    if j.attrs_decorated:
+                        for fld in j.own_fields:
+                            eqv = fld.kw.get('eq', fld.kw.get('cmp'))
+                            if not (isinstance(eqv, ast.Constant) and eqv.value is False):
+                                compared.add(fld.name)
+                break
+        if provider is None:
+            stateless = not any(k.own_fields or '__init__' in k.methods for k in chain)
+            if stateless and model.all_subclasses(c):
+                # a behaviour-only base / mixin (enum mixins, attrs based field containers): what is instantiated is a subclass,
+                # which is examined on its own
+                report.sample({'rule': RULE, 'class': c.name, 'verdict': 'stateless base of %d subclasses, examined through them' % len(model.all_subclasses(c))}, 20)
+                continue
+            report.add(RULE, '%s@equality[none]' % c.construct,
+                       'no class in the chain defines __eq__ (no attrs decoration, no explicit method): objects compare by identity, so the object '
+                       'parsed from compose(x) is never equal to x')
+            continue
+        if compared is None:
+            continue
+        # state outside the compared set
+        stored = set()
+        for k in chain:
+            for mname in ('__init__', '__attrs_post_init__'):
+                f = k.methods.get(mname)
+                if f is not None:
+                    stored |= self_attrs(f.node, store=True)
+            stored |= {fld.name for fld in k.own_fields}      # declared fields: those switched off with eq=False are not in `compared`
+        comp = c.resolve('compose')
+        read = self_attrs(comp.node, store=False) if comp is not None else set()
+        for k in chain:
+            for mname, f in k.methods.items():
+                if mname.startswith('_compose') and f is not None:
+                    read |= self_attrs(f.node, store=False)
+        norm = lambda n: n.lstrip('_')
+        missing = sorted(x for x in stored if norm(x) not in {norm(y) for y in compared} and (x in read or norm(x) in {norm(r) for r in read}))
+        for x in missing:
+            report.add(RULE, '%s@equality[%s]' % (c.construct, x),
+                       'the composer writes self.%s, but the __eq__ in force (%s of %s) does not look at it: two objects that differ '
+                       'only there compare equal, so the round trip cannot be told from a lossy one' % (
+                           x, 'attrs generated' if '__eq__' not in provider.methods else 'explicit', provider.name))
+    report.floor(RULE, 250, 'parsable classes')
